@@ -7,6 +7,8 @@
 #include <cstdio>
 #include <cstring>
 #include <exception>
+#include <iostream>
+#include <sstream>
 #include <map>
 #include <stdexcept>
 #include <string>
@@ -23,6 +25,7 @@
 #include <tao/pegtl/contrib/parse_tree.hpp>
 #include <tao/pegtl/contrib/predicates.hpp>
 #include <tao/pegtl/contrib/rep_one_min_max.hpp>
+#include <tao/pegtl/contrib/trace.hpp>
 
 namespace vh
 {
@@ -652,7 +655,8 @@ namespace vh
              template< typename... >
              class Control,
              pegtl::tracking_mode T,
-             typename Eol >
+             typename Eol,
+             int Mode = 1 >   // 1: coverage<>(), 2: tracer hiding internal rules, 3: tracer showing them (output discarded)
    void run_case_cov( const char* case_id, const std::string& bytes, std::size_t ib, std::size_t il, std::size_t ic )
    {
       const std::size_t n = bytes.size();
@@ -674,8 +678,22 @@ namespace vh
       {
          pegtl::input_with_depth< pegtl::memory_input< T, Eol, std::string > > in( buf, buf + n, "src", ib, il, ic );
          pegtl::coverage_result result;
+         std::ostringstream sink;
+         std::streambuf* const old_cerr = std::cerr.rdbuf( sink.rdbuf() );
+         struct restore_cerr { std::streambuf* b; ~restore_cerr() { std::cerr.rdbuf( b ); } } rc{ old_cerr };
          try {
-            const bool r = pegtl::coverage< Root, Action, Control >( in, result );
+            bool r = false;
+            if constexpr( Mode == 1 ) {
+               r = pegtl::coverage< Root, Action, Control >( in, result );
+            }
+            else if constexpr( Mode == 2 ) {
+               pegtl::tracer< pegtl::tracer_traits< true, false, false > > tr( in );
+               r = tr.template parse< Root, Action, Control >( in );
+            }
+            else {
+               pegtl::tracer< pegtl::tracer_traits< false, false, true > > tr( in );
+               r = tr.template parse< Root, Action, Control >( in );
+            }
             g_out += r ? "R 1" : "R 0";
             emit_pos( in.position() );
             g_out += '\n';
